@@ -195,7 +195,9 @@ def run(ck, prog, ctx):
                         c |= columns_of(pc, pvn.of_operand(pc, x), cols)
                     ck.ob("ROLE", "hpoa/qualifier-column", c == {2}, "the qualifier compared with `NOT` is column %s (expected 2)" % sorted(c), where=pc.where(t.line))
         cols = split_columns(pc, pvn)
-        for pos, s in pc.stmts():
+        if cols.get("incomplete"):
+            ck.undecided("ROLE", "hpoa/columns", "columns are skipped by a computed count: column numbers are not constants", where=pc.where())
+        for pos, s in ([] if cols.get("incomplete") else pc.stmts()):
             if s.k == "assign" and s.rv["k"] == "agg" and s.rv.get("adt", "").endswith("DiseaseComponents"):
                 m = {}
                 for f, o in zip(s.rv["fields"], s.rv["ops"]):
@@ -215,6 +217,9 @@ def run(ck, prog, ctx):
         calls = [(bi, t) for bi, t in b.calls() if (t.callee.res or "").endswith("ParsedGene::<'a>::try_new")]
         if not calls:
             ck.undecided("ROLE", fn + "/columns", "ParsedGene::try_new not called", where=b.where())
+        if cols.get("incomplete"):
+            ck.undecided("ROLE", fn + "/columns", "columns are skipped by a computed count: column numbers are not constants", where=b.where())
+            continue
         for bi, t in calls:
             got = tuple(sorted(columns_of(b, pvn.of_operand(b, a), cols)) for a in t.args)
             ok = got == tuple([w] for w in want)
